@@ -24,7 +24,7 @@ BUDGET_S = {"quick": 240, "thorough": 2400}
 EXTRA_BUILDS = {"thorough": ["rel", "asan"]}
 GENERIC_REL = False  # own release stage below
 MIN_HITS = {
-    'quick': {"program": 151419, "allbytes": 1280, "random_tokens": 1920, "constructed": 810, "tx_bound": 448, "lib_err": 23922, "lib_ok": 126717, "post_error_state_checked": 23922, "step_vs_run": 150639},
+    'quick': {"program": 151467, "allbytes": 1280, "random_tokens": 1920, "constructed": 858, "tx_bound": 448, "lib_err": 23946, "lib_ok": 126741, "post_error_state_checked": 23946, "step_vs_run": 150687},
     'thorough': {"program": 1078522, "allbytes": 1536, "random_tokens": 614400, "constructed": 153624, "tx_bound": 76800, "lib_err": 694087, "lib_ok": 314920, "step_vs_run": 1009008},
 }
 HOSTILE = [b"", b"\x00", b"\x80", b"\x01", b"\x81", b"\x02", b"\x7f", b"\xff", b"\xff\xff\xff\x7f", b"\xff\xff\xff\xff", b"\x00\x00\x00\x80\x00", b"\xff" * 9, b"\x01\x00\x00\x00\x00\x00", bytes(33), b"\x02" + bytes(32), bytes(71), b"\x30\x06\x02\x01\x01\x02\x01\x01\x41"]
@@ -124,6 +124,13 @@ def cases(ctx):
         yield {"k": "bits", "bits": [{"if": 99, "pass": [], "fail": None}], "tag": "constructed"}
         yield {"k": "bits", "bits": [{"op": 81}] + [{"if": 99, "pass": [{"op": 81}], "fail": []}] * 50, "tag": "constructed"}
         yield {"k": "bits", "bits": [{"cb": "00"}], "tag": "constructed"}
+        # hand-built PUSHDATA elements whose payload does not fit the length field of their opcode (only from_script_bits can make these),
+        # followed by something that fails, and in the middle of a program
+        for code, ln in ((76, 256), (76, 300), (77, 65536), (76, 0), (78, 1), (77, 255)):
+            yield {"k": "bits", "bits": [{"op": 81}, {"pd": code, "data": "ab" * ln}, {"op": 135}], "tag": "constructed"}
+            yield {"k": "bits", "bits": [{"pd": code, "data": "cd" * ln}], "tag": "constructed"}
+            yield {"k": "bits", "bits": [{"if": 99, "pass": [{"pd": code, "data": "ef" * ln}], "fail": None}], "tag": "constructed"}
+            yield {"k": "bits", "bits": [{"op": 81}, {"if": 99, "pass": [{"pd": code, "data": "ef" * ln}, {"op": 105}], "fail": None}, {"op": 147}], "tag": "constructed"}
         yield {"k": "bits", "bits": [{"op": 103}, {"op": 104}, {"op": 99}], "tag": "constructed"}
     # (e) transaction-bound
     x = r.randrange(1, ec.N)
